@@ -19,11 +19,52 @@ def run_c03(res, tier):
     return extra
 
 
+def run_c18(res, tier):
+    import sv
+    ast = load_ast()
+    sv.run_sv(res, ast)
+    return {}
+
+
 REGISTRY = {
+    "C18": {
+        "run": run_c18,
+        "level": "other",
+        "technique": "path-sensitive typestate and discriminant-dominance analysis over the syntax tree of smallvec.rs",
+        "claim": "Decides the drop/ownership discipline of the MaybeUninit representation (every slot kept or consumed "
+                 "exactly once on every syntactic path of every per-slot loop; iterator cursor; ownership transfer) and "
+                 "the union-discriminant discipline (payload and tag only touched in the branch a size<=N test selects). "
+                 "These are necessary conditions of 'every element dropped exactly once' and of memory-safe access; "
+                 "content equivalence with Vec under all histories is not decided.",
+        "note": "Trusted: the syn parser; std's Vec for the heap representation; the loop invariant j <= i of the compaction "
+                "loops is derived from the checked prologue (size reset to the loop's first index) and at-most-one increment per path.",
+        "explanation": "Static typestate / representation-discipline analysis of src/smallvec.rs: SV-DISPOSE enumerates every "
+                       "syntactic path through the per-slot loops of retain/retain_mut/dedup/clear/Drop and classifies the slot as "
+                       "kept, moved or consumed; SV-REPR-GUARD places every access of data.arr/data.vec/size in the region of a "
+                       "discriminant test; SV-ITER/SV-NODOUBLE check the by-value iterator and the two ownership transfers.",
+        "not_decided": ["content equivalence with Vec for all operation sequences (functional equivalence)",
+                        "panic-safety of retain/dedup when the predicate or PartialEq panics (the code documents that it leaks then)"],
+    },
     "C03": {
         "run": run_c03,
         "level": "other",
-        "explanation": "Static template-effect analysis of the x86-64 instruction selector.",
-        "not_decided": [],
+        "technique": "template effect analysis: abstract interpretation of the selector and encoder templates over finite operand domains with polynomial values, compared with the bytecode meaning and an Intel SDM reference table",
+        "claim": "Decides that the baseline JIT's translation layer is right for every operand-kind combination it "
+                 "distinguishes: each arithmetic/copy arm of the selector has exactly the effect dst := src0 op src1 under every "
+                 "aliasing/residency/liveness/immediate-size input (SEL-EFFECT, SEL-COVER); every encoder emits the reference "
+                 "x86-64 encoding (ASM-TABLE, ASM-CORE, SEL-WIDTH); runtime calls, the bounds probe, the budget check, branches and "
+                 "the frame follow their protocols (CALL-SAVE, CALL-PROTO, JIT-TERM, PROBE-SEQ, LIM-JIT, BR-JIT, FRAME, ABI-OFFSETS). "
+                 "Necessary conditions of C03; the bytecode generator and the optimiser upstream are not decided.",
+        "note": "Trusted: the syn parser; the hand-written reference tables in lib/asmtab.py, lib/asmcore.py (Intel SDM) and the "
+                "canonical-form table in lib/sel.py (derived from bc.rs parameter_reordering, reasons inline); polynomial identity "
+                "over Z is used as the equality of cell values (sound for all four widths because zero-extending loads, 64-bit "
+                "arithmetic and truncating stores commute with + - * modulo 2^w).",
+        "explanation": "Static template-effect analysis of src/exec/basejit: the `match instr` of emit_program is evaluated "
+                       "syntactically per canonical bytecode form and abstract input to the emitted instruction sequence, which is "
+                       "interpreted over an abstract machine with polynomial values; encoders are evaluated per immediate class "
+                       "against a reference table; emit_rex/emit_modrm over the finite operand domain against a reference encoder.",
+        "not_decided": ["bc::CodeGen::translate produces bytecode equivalent to the IR (value numbering, temp allocation, live bitmaps)",
+                        "relocation arithmetic in fix_relocations",
+                        "the optimiser upstream (C01)"],
     },
 }
